@@ -680,6 +680,27 @@ var Corpus = []Scenario{
 		x.do(Action{Op: "NodeRemove", N: "n2"})
 		x.D.Converge(60)
 	}},
+	{"migration-undeclared", []string{"C12", "C01", "C02"}, func(x Scn) {
+		// the migration is declared, runs, and is then withdrawn (annotation removed, template unchanged: same replica set) while
+		// the old DaemonSet still exists and again puts a pod on a node: that pod is no longer the ExtendedDaemonSet's business
+		x.D.Strategy[Key] = BaseStrategy()
+		for i := 1; i <= 3; i++ {
+			x.do(Action{Op: "NodeAdd", N: "n" + strconv.Itoa(i), V: "A,B,C", W: "c;z=z1"})
+		}
+		x.do(Action{Op: "CreateDaemonSet", Key: Key, V: "old"})
+		for i := 1; i <= 3; i++ {
+			x.do(Action{Op: "ForeignPod", Key: Key, N: "n" + strconv.Itoa(i), V: "ds", W: "old"})
+		}
+		x.do(Action{Op: "KRound"})
+		x.do(Action{Op: "CreateEDS", Key: Key, T: "A"})
+		x.Ann("old-ds", "old")
+		x.D.Converge(30)
+		x.Ann("old-ds", "")
+		x.Rounds(2)
+		x.do(Action{Op: "ForeignPod", Key: Key, N: "n1", V: "ds", W: "old"})
+		x.do(Action{Op: "KRound"})
+		x.Rounds(4)
+	}},
 	{"two-eds-one-namespace-canary", []string{"C12", "C04", "C02"}, func(x Scn) {
 		// bar runs a canary (labelled canary pods) while foo's active replica set is inside its canary-label clean-up window
 		// (just activated, then a rolling update): foo must not touch bar's canary pods
